@@ -245,6 +245,8 @@ func c05Forms(what string, b []byte) []c05Needle {
 		{what + " (base64 std, unpadded)", []byte(base64.RawStdEncoding.EncodeToString(b))},
 		{what + " (base64 url)", []byte(base64.URLEncoding.EncodeToString(b))},
 		{what + " (base64 url, unpadded)", []byte(base64.RawURLEncoding.EncodeToString(b))},
+		{what + " (Go byte-slice rendering [12 34 …])", []byte(strings.Trim(fmt.Sprint(b), "[]"))},
+		{what + " (Go %#v rendering)", []byte(strings.TrimSuffix(strings.TrimPrefix(fmt.Sprintf("%#v", b), "[]byte{"), "}"))},
 	}
 }
 
@@ -802,6 +804,187 @@ func (cw *c05World) unit(inst *c05Inst, beh c05Beh, shape c05Shape, cross bool, 
 		cw.callback(unit, Y, K, beh.Name, sc, cks, shape.Name, cross)
 		attempted[-op] = true
 	}
+	if beh.Name == "echo" || beh.Name == "absent" { // two units per (instance, shape, cross) also run the failing callbacks
+		Y := logins[order[0]]
+		var O *c05Login
+		if len(order) > 1 {
+			O = logins[order[1]]
+		}
+		cw.failingCallbacks(unit, Y, O)
+	}
+}
+
+
+// ---------------------------------------------------------------------------------------------------------
+// failing callbacks (leak scan over error pages) and repeated callbacks (a spent login stays spent)
+
+// c05ForgeState: Y's state with the last character of the nonce changed — the CSRF cookie is found (also with per-request
+// names, which use the first 8 characters) and the state comparison fails: the "second tab / forged link" error page.
+func c05ForgeState(Y *c05Login) string {
+	st := Y.State
+	enc := Y.Inst.P.Opts.EncodeState
+	if enc {
+		b, err := base64.RawURLEncoding.DecodeString(st)
+		if err != nil {
+			return st + "x"
+		}
+		st = string(b)
+	}
+	k := strings.IndexByte(st, ':')
+	if k < 2 {
+		return st + "x"
+	}
+	c := byte('A')
+	if st[k-1] == 'A' {
+		c = 'B'
+	}
+	st = st[:k-1] + string(c) + st[k:]
+	if enc {
+		return base64.RawURLEncoding.EncodeToString([]byte(st))
+	}
+	return st
+}
+
+// failingCallbacks sends, for login Y (and the other login O of the same browser), the callbacks that end in an error page
+// and scans those pages for the login's secrets (with --show-debug-on-error the page carries the internal error text).
+func (cw *c05World) failingCallbacks(unit string, Y, O *c05Login) {
+	run := cw.Run
+	inst := Y.Inst
+	if inst.ADFSState {
+		return
+	}
+	type fc struct {
+		name, state string
+		cookies     [][2]string
+	}
+	own := [][2]string{{Y.CookieName, Y.CookieValue}}
+	cases := []fc{{"forged-state-own-cookie", c05ForgeState(Y), own}, {"no-cookie", Y.State, nil}, {"garbage-state-own-cookie", "zzzz", own}}
+	if O != nil && O != Y && O.CookieName == Y.CookieName { // single shared cookie name: the other tab's state with this tab's cookie
+		cases = append(cases, fc{"other-logins-state-own-cookie", O.State, own})
+	}
+	for _, c := range cases {
+		code, _, err := cw.W.IdP.Authorize(Y.LoginURL, Y.Ident)
+		if err != nil {
+			c05Rig(run, "authorize: %v", err)
+			return
+		}
+		sc := &c05Script{Beh: "echo"}
+		cw.scripts.Store(code, sc)
+		req := vfGET(inst.P.Opts.ProxyPrefix + "/callback?code=" + vfQueryEscape(code) + "&state=" + vfQueryEscape(c.state))
+		for _, ck := range c.cookies {
+			req.Cookie(ck[0], ck[1])
+		}
+		resp := inst.P.Do(req)
+		a := &c05Attempt{Unit: unit + " (failing callback: " + c.name + ")", Y: Y, K: Y, Beh: "echo", Code: code, Script: sc, Cookies: c.cookies, Req: req, Status: resp.Code, ErrText: vfTrunc(vfErrText(resp.Body), 200), NonceOK: true, PKCEOK: true}
+		a.Session = len(c05SessionSet(resp, inst.P.Opts.Cookie.Name)) > 0
+		cw.mu.Lock()
+		cw.attempts = append(cw.attempts, a)
+		cw.mu.Unlock()
+		run.Eval(fmt.Sprintf("%s|failing-callback=%s|debug-page=%v|status=%d", inst.Cfg.Label(), c.name, inst.P.Opts.Templates.Debug, resp.Code))
+		run.Count("failing_callbacks", 1)
+		if inst.P.Opts.Templates.Debug {
+			run.Count("failing_callbacks_on_debug_error_pages", 1)
+		}
+		if a.Session {
+			run.Violation("c05:session-with-foreign-state", fmt.Sprintf("[%s] callback %q (state %q) established a session", inst.Cfg.Label(), c.name, c.state), a.witness())
+		}
+		if hit := c05Scan(resp, Y, O); hit != "" {
+			w := a.witness()
+			w.ErrorText = vfTrunc(vfErrText(resp.Body), 1500)
+			run.Violation("c05:secret-in-response", fmt.Sprintf("[%s] the error page of the failing callback %q (status %d) contains the %s", inst.Cfg.Label(), c.name, resp.Code, hit), w)
+		}
+		run.Count("responses_scanned_for_leaks", 1)
+	}
+}
+
+// repeatUnit: one honest login through a real cookie jar; afterwards the login's CSRF cookie must be gone from the jar and
+// a repeated callback (same state, same jar) must not yield a session, whether the provider answers with a fresh token
+// for the same authorization request or replays the first ID token.
+func (cw *c05World) repeatUnit(inst *c05Inst, un int) {
+	run := cw.Run
+	if inst.ADFSState {
+		return
+	}
+	b := vfNewBrowser("")
+	unit := fmt.Sprintf("%s/r%d repeated callback", inst.Cfg.Label(), un)
+	Y, err := c05Start(inst, b, fmt.Sprintf("r%d-1", un))
+	if err != nil {
+		c05Rig(run, "%s: %v", unit, err)
+		return
+	}
+	cw.addLogin(Y)
+	run.Count("logins_started", 1)
+	// a second login pending in the same browser (its cookie must not be touched, and it keeps the jar realistic)
+	var O *c05Login
+	if inst.Cfg.PerReq {
+		if O, err = c05Start(inst, b, fmt.Sprintf("r%d-2", un)); err != nil {
+			c05Rig(run, "%s: %v", unit, err)
+			return
+		}
+		cw.addLogin(O)
+		run.Count("logins_started", 1)
+	}
+	key := fmt.Sprintf("r%d-%d", un, atomic.AddInt64(&c05Seq, 1))
+	do := func(step string, sc *c05Script) (*c05Attempt, *vfResp) {
+		code, _, err := cw.W.IdP.Authorize(Y.LoginURL, Y.Ident)
+		if err != nil {
+			c05Rig(run, "authorize: %v", err)
+			return nil, nil
+		}
+		cw.scripts.Store(code, sc)
+		target := inst.P.Opts.ProxyPrefix + "/callback?code=" + vfQueryEscape(code) + "&state=" + vfQueryEscape(Y.State)
+		var cks [][2]string
+		for _, c := range b.Jar.For(b.Host, target, false) {
+			cks = append(cks, [2]string{c.Name, c.Value})
+		}
+		req := vfGET(target)
+		resp := b.Send(inst.P, req)
+		a := &c05Attempt{Unit: unit + " (" + step + ")", Y: Y, K: Y, Beh: sc.Beh, Code: code, Script: sc, Cookies: cks, Req: req, Status: resp.Code, ErrText: vfTrunc(vfErrText(resp.Body), 200), NonceOK: true, PKCEOK: true}
+		a.Session = len(c05SessionSet(resp, inst.P.Opts.Cookie.Name)) > 0
+		cw.mu.Lock()
+		cw.attempts = append(cw.attempts, a)
+		cw.mu.Unlock()
+		if hit := c05Scan(resp, Y, O); hit != "" {
+			run.Violation("c05:secret-in-response", fmt.Sprintf("[%s] callback response (status %d) contains the %s", inst.Cfg.Label(), resp.Code, hit), a.witness())
+		}
+		run.Count("responses_scanned_for_leaks", 1)
+		return a, resp
+	}
+	first, _ := do("first callback", &c05Script{Beh: "capture", Key: key})
+	if first == nil {
+		return
+	}
+	run.Eval(fmt.Sprintf("%s|repeat|first|session=%v", inst.Cfg.Label(), first.Session))
+	if !first.Session {
+		run.Violation("c05:bound-login-rejected", fmt.Sprintf("[%s] honest login through the browser jar: no session (status %d %s)", inst.Cfg.Label(), first.Status, first.ErrText), first.witness())
+		return
+	}
+	run.Count("jar_logins_completed", 1)
+	for _, c := range b.Jar.All() {
+		if c.Name == Y.CookieName && c.Value == Y.CookieValue {
+			w := first.witness()
+			w.SetCookie = []string{}
+			run.Violation("c05:csrf-cookie-survives-successful-callback",
+				fmt.Sprintf("[%s] after the successful callback the browser (RFC 6265 jar) still holds the login's CSRF cookie %s — nonce and verifier of the spent login remain usable", inst.Cfg.Label(), Y.CookieName), w)
+		}
+		if O != nil && c.Name == O.CookieName {
+			run.Count("other_pending_cookie_kept", 1)
+		}
+	}
+	for _, rep := range []struct {
+		step string
+		sc   *c05Script
+	}{{"repeated callback, provider replays the first ID token", &c05Script{Beh: "replay", Key: key}}, {"repeated callback, fresh code for the same authorization request", &c05Script{Beh: "echo"}}} {
+		a, _ := do(rep.step, rep.sc)
+		if a == nil {
+			return
+		}
+		run.Eval(fmt.Sprintf("%s|repeat|%s|session=%v", inst.Cfg.Label(), rep.sc.Beh, a.Session))
+		run.Count("repeated_callbacks", 1)
+		if a.Session {
+			run.Violation("c05:repeated-callback-yields-session", fmt.Sprintf("[%s] %s: the same browser completed the same login a second time (status %d)", inst.Cfg.Label(), rep.step, a.Status), a.witness())
+		}
+	}
 }
 
 // ---------------------------------------------------------------------------------------------------------
@@ -1157,6 +1340,9 @@ func TestVerif_C05(t *testing.T) {
 				if k%2 == 0 {
 					flags = append(flags, "--encode-state=true")
 				}
+				if (k/2)%2 == 0 {
+					flags = append(flags, "--show-debug-on-error=true") // error pages carry the internal error text
+				}
 				if k%3 == 0 {
 					flags = append(flags, "--session-store-type=redis", "--redis-connection-url="+w.RedisURL())
 				}
@@ -1193,7 +1379,7 @@ func TestVerif_C05(t *testing.T) {
 		cfg := c05Cfg{Method: nd.method, SkipNonce: false, PerReq: pr, Advertised: nd.label}
 		adv := nd.adv
 		w.IdP.Set(func(c *vfIdPCfg) { c.ChallengeMethods = adv })
-		p, err := w.NewProxy("--insecure-oidc-skip-nonce=false", "--cookie-csrf-per-request="+strconv.FormatBool(pr), "--code-challenge-method="+nd.method)
+		p, err := w.NewProxy("--insecure-oidc-skip-nonce=false", "--cookie-csrf-per-request="+strconv.FormatBool(pr), "--code-challenge-method="+nd.method, "--show-debug-on-error=true")
 		w.IdP.Set(func(c *vfIdPCfg) { c.ChallengeMethods = nil })
 		if err != nil {
 			t.Fatalf("%s: %v", cfg.Label(), err)
@@ -1256,6 +1442,10 @@ func TestVerif_C05(t *testing.T) {
 		cw.unit(j.inst, j.beh, j.shape, j.cross, mrand.New(mrand.NewSource(j.seed)), i)
 	})
 
+	// repeated callbacks through real cookie jars
+	nrep := run.Env.Pick(3, 12)
+	vfParallel(len(insts)*nrep, 16, func(i int) { cw.repeatUnit(insts[i%len(insts)], i) })
+
 	// bulk starts: thousands of authorization requests for the uniqueness / shape monitors
 	bulk := run.Env.Pick(150, 1500)
 	vfParallel(len(insts)*bulk, 16, func(i int) {
@@ -1280,6 +1470,11 @@ func TestVerif_C05(t *testing.T) {
 	})
 	cw.entropyFaults(insts)
 	cw.history()
+	if run.Counter("failing_callbacks_on_debug_error_pages") == 0 || run.Counter("repeated_callbacks") == 0 {
+		run.Inconclusive("no failing callback on a debug error page / no repeated callback was observed")
+		fmt.Printf("INCONCLUSIVE property=C05 reason=failing/repeated callback phases without events\n")
+		t.Fail()
+	}
 	if run.Counter("entropy_fault_starts_refused") == 0 || run.Counter("entropy_faults_fired") == 0 {
 		run.Inconclusive("the entropy-fault phase injected no fault / saw no refused start")
 		fmt.Printf("INCONCLUSIVE property=C05 reason=entropy-fault phase without events\n")
